@@ -155,12 +155,32 @@ def run_job(job, timeout_ms=10000, second_opinion=False):
                     s3.set("timeout", 3000)
                     s3.add(z3.Not(o.formula), *[t == z3.BoolVal(v) for t, v in zip(syms, vals)])
                     if s3.check() != z3.sat:
-                        definite = False
-                        break
+                        # no counter-model under this valuation: harmless if the valuation itself contradicts the
+                        # path assumptions (e.g. an `assert` of the code made the condition true)
+                        hyp = o.formula.arg(0) if z3.is_implies(o.formula) else None
+                        s4 = z3.Solver()
+                        s4.set("timeout", 3000)
+                        if hyp is not None:
+                            s4.add(hyp, *[t == z3.BoolVal(v) for t, v in zip(syms, vals)])
+                        if hyp is None or s4.check() != z3.unsat:
+                            definite = False
+                            break
                 if not definite:
                     o.status = "undecided"
                     o.detail = "counter-model depends on the value of a condition the encoding does not know (opaque call result)"
-            if o.status == "refuted" and ex.labels.get(("abstracted",)) and job.expect != "refuted":
+            def _touches_abstraction(formula):
+                import re as _re
+                rngs = ex.labels.get(("abstracted_range",)) or []
+                if len(rngs) != len([a for a in ex.labels.get(("abstracted",)) or [] if not a.startswith("assertion")]):
+                    return True          # an abstraction without a recorded range (unevaluable assertion ...)
+                txt = formula.sexpr()
+                for mm in _re.finditer(r"(?:__h|__nanh|!|__multh|__ilenh|__elemsh|_)(\d+)\b", txt):
+                    k = int(mm.group(1))
+                    if any(lo < k < hi for lo, hi in rngs):
+                        return True
+                return False
+            if o.status == "refuted" and ex.labels.get(("abstracted",)) and job.expect != "refuted" \
+                    and _touches_abstraction(o.formula):
                 o.status = "undecided"
                 o.detail = ("counter-model exists only under an over-approximation of statements outside the encodable "
                             "subset: " + "; ".join(ex.labels[("abstracted",)][:3]))
